@@ -280,7 +280,7 @@ def shards(tier, seed, scale=1.0):
     for c in range(nchunks):
         out.append({"name": "corpus-%d" % c, "type": "corpus", "files": files[c::nchunks], "k": kc,
                     "seed": sub(seed, ID, "corpus", c), "wall_limit_s": WALL_S[tier]})
-    nsh, per, k = {"quick": (24, 110, 7), "thorough": (64, 1200, 24)}[tier]
+    nsh, per, k = {"quick": (24, 110, 7), "thorough": (256, 125, 16)}[tier]
     per = max(1, int(per * scale))
     for s in range(nsh):
         out.append({"name": "gen-%d" % s, "type": "gen", "seed": sub(seed, ID, "gen", s), "programs": per, "k": k,
